@@ -63,6 +63,11 @@ def gen(t, tier):
             else:
                 c['holds'].append(['y', t.randint(0, 4)])
         sc['contenders'].append(c)
+    if sc['kind'] == 'filelock' and sc['remove'] and t.chance(0.25):
+        # the unlink of the lock file fails once (sticky lock directory owned by another user, I/O error): unlock() then
+        # falls back to closing the descriptor - the lock is free all the same and must stay exclusive afterwards
+        sc['unlink_fault'] = {'at': t.choice(6), 'errno': t.pick(['EPERM', 'EIO', 'EACCES'])}
+        sc['reuse'] = bool(t.chance(0.7))
     return sc
 
 
@@ -86,6 +91,10 @@ def shrink(sc):
                 c = copy.deepcopy(sc)
                 c['contenders'][i]['holds'][j] = ['y', 0] if h[0] == 'y' or h == ['y', 1] else ['y', 1]
                 yield c
+    if sc.get('unlink_fault'):
+        c = copy.deepcopy(sc)
+        del c['unlink_fault']
+        yield c
     for key, simple in (('crash', False), ('eager_time', False), ('reuse', False), ('perm', None)):
         if sc[key] != simple:
             c = copy.deepcopy(sc)
@@ -166,6 +175,21 @@ def run(sc, tape):
         return fn
 
     crash_budget = [1 if sc['crash'] else 0]
+    unlink_count = [0]
+
+    def fault_hook(op, key, proc):
+        uf = sc.get('unlink_fault')
+        if uf and op == 'unlink' and str(key).endswith('.lck'):
+            n = unlink_count[0]
+            unlink_count[0] += 1
+            if n == uf['at']:
+                import errno
+                faults['unlink_error_' + uf['errno']] = faults.get('unlink_error_' + uf['errno'], 0) + 1
+                code = getattr(errno, uf['errno'])
+                raise OSError(code, os.strerror(code), str(key))
+        return None
+    if sc.get('unlink_fault'):
+        fs.fault_hook = fault_hook
 
     def on_yield(task, kind, key):
         if crash_budget[0] and task.tid < len(sc['contenders']) and kind.startswith('fs-') or kind == 'cs':
